@@ -3,6 +3,7 @@ import Driver.OpsValidate
 import Driver.OpsEngine
 import Driver.OpsFs
 import Driver.OpsPar
+import Driver.OpsSql
 
 open Lean Df.Codec
 
@@ -19,6 +20,7 @@ def ops : List (String × (Json → R Json)) :=
    ("plan", Df.Ops.opPlan),
    ("ejson", Df.Ops.opEjson),
    ("sched", Df.Ops.opSched),
+   ("sqlhist", Df.Ops.opSqlHist),
    ("ping", fun j => do return Json.mkObj [("ok", encPkg (← decPkg (← j.getObjVal? "pkg")))])]
 
 def handle (line : String) : String :=
